@@ -3,7 +3,7 @@ from __future__ import annotations
 
 from .common import *   # noqa: F401,F403
 from . import instr_gen as ig
-LEAF = ['Leaf_note', 'Leaf_build', 'Leaf_sustain', 'Leaf_dispatch', 'Leaf_tracks', 'Leaf_chart', 'Leaf_fromfile']      # translated functions this property's model relies on (Tie/<name>.v)
+LEAF = ['Leaf_note', 'Leaf_build', 'Leaf_sustain', 'Leaf_dispatch', 'Leaf_tracks', 'Leaf_chart', 'Leaf_fromfile', 'Leaf_meta']      # translated functions this property's model relies on (Tie/<name>.v)
 
 RULE = ("one well-formed instrument section per case (note ticks non-decreasing): all 31 lane subsets + open, gaps incl. 1, chord as last group, "
         "forced/tap flag lines in every position of a group (incl. both flags on a five-lane chord), S 2 / E lines interleaved between the N lines of one tick; any of the 40 section headers; "
